@@ -311,7 +311,9 @@ def run(chk, ctx):
     tier = ctx['tier']; rng = common.Rng(ctx['seed'], 'C04'); q = tier == 'quick'
     chk.rule = ('L3: frozen marginals (2-5 pops, random frozen subsets, const and time-varying), isolated marginals of random subsets (shared time steps), '
                 'per-kernel line-mass bookkeeping through recorded kernel calls, injection support/amount, exhaustive frozen x migration-rate rejection table; '
-                'K: full sweeps with flags vs the Lean model. non-trivial = distinct (clause, d, subset/flags, varying)')
+                'K: full sweeps with flags vs the Lean model, 2-3 step runs with every parameter time-dependent / constant vs the model and vs the translated time loop; '
+                'schedule oracle: steps, step variable, sizes at next_t, injection amount/support, sweep order observed through recorded calls. '
+                'non-trivial = distinct (clause, d, subset/flags, varying)')
     chk.unproved = ['isolated marginals: proved for any d <= 5 and any subset S on a common grid (C04_isolated_marginal_general_*); the populations outside S keep their pivot '
                     'condition as a hypothesis (discharged for neutral, migration-free populations and under the Peclet-type condition of C02_pivots_peclet), and different grids per axis '
                     'are covered only by the sweep-level theorems plus the numerical L3 check',
@@ -319,10 +321,12 @@ def run(chk, ctx):
                     'C04 theorems are stated on the functional form (stepFam/stepAxisFn); that the tabulated arrays equal it on every valid index is proved in Props/C03 (C03_tabulated_*)']
     from . import c03
     c03.k_sweep(chk, ctx, rng, 10 if q else 50, tier)
+    k_program(chk, ctx, common.Rng(ctx['seed'], 'C04-program'), 1 if q else 4, tier, modes=('vary', 'const'))
     l3_frozen_marginal(chk, ctx, rng, 16 if q else 96)
     l3_isolated_marginal(chk, ctx, rng, 12 if q else 72, forced=[(d, k) for d in range(2, 6) for k in range(d)])
     l3_mass_per_kernel(chk, ctx, rng, 15 if q else 80)
     l3_reject(chk, ctx, rng, 1)
+    l3_schedule(chk, ctx, common.Rng(ctx['seed'], 'C04-schedule'), 30 if q else 150)
     l3_flag_table(chk, ctx, rng)
 
 def replay(chk, ctx, data):
